@@ -224,6 +224,7 @@ fn module_plain(e: &EnumSpec, cfg: Config, nested: bool) -> ModuleSrc {
     let name = e2.name.clone();
     let mut eo = emit::enum_opts(&e2, &name);
     eo.derive_prefix = prefix;
+    eo.t_inst = "u8"; // default type of a defaulted parameter: core only
     eo.err_ty = "MyErr";
     eo.err_fn = "mk_err";
     let clone: &[&str] = &["Clone"];
